@@ -478,3 +478,20 @@ CORPUS += [
     V("C20", "eq-ema-incremental-form", BLF, "v = self.beta * self.v + (1.0 - self.beta) * reward.mean()", "v = self.v + (1.0 - self.beta) * (reward.mean() - self.v)", None),
     V("C20", "eq-welford-rename", UTF, "delta2", "d_new", None, count=99),
 ]
+
+DSF = "rl4co/data/dataset.py"
+CORPUS += [
+    # ---------------------------------------------------------------- C17
+    V("C17", "rollout-loader-shuffled", BLF, "dl = DataLoader(dataset, batch_size=batch_size, collate_fn=dataset.collate_fn)\n\n        rewards", "dl = DataLoader(dataset, batch_size=batch_size, shuffle=True, collate_fn=dataset.collate_fn)\n\n        rewards", "C17.b"),
+    V("C17", "rollout-loader-drop-last", BLF, "dl = DataLoader(dataset, batch_size=batch_size, collate_fn=dataset.collate_fn)\n\n        rewards", "dl = DataLoader(dataset, batch_size=batch_size, drop_last=True, collate_fn=dataset.collate_fn)\n\n        rewards", "C17.b"),
+    V("C17", "rollout-default-collate", BLF, "dl = DataLoader(dataset, batch_size=batch_size, collate_fn=dataset.collate_fn)\n\n        rewards", "dl = DataLoader(dataset, batch_size=batch_size)\n\n        rewards", "C17.a"),
+    V("C17", "eval-loader-shuffled", "rl4co/tasks/eval.py", "        shuffle=False,\n        num_workers=0,\n        collate_fn=dataset.collate_fn,\n    )\n\n    # Run evaluation", "        shuffle=True,\n        num_workers=0,\n        collate_fn=dataset.collate_fn,\n    )\n\n    # Run evaluation", "C17.b"),
+    V("C17", "extra-shifted-index", DSF, "data[self.key_name] = self.extra[idx]", "data[self.key_name] = self.extra[idx - 1]", "C17.c"),
+    V("C17", "wrap-dataset-uses-own-dataset", BLF, "self.rollout(self.policy, env, batch_size, device, dataset=dataset)", "self.rollout(self.policy, env, batch_size, device)", "C17.c"),
+    V("C17", "wrap-dataset-other-key", BLF, 'return dataset.add_key("extra", rewards)', 'return dataset.add_key("baseline", rewards)', "C17.c"),
+    V("C17", "collate-sorted", DSF, "{key: torch.stack([b[key] for b in batch]) for key in batch[0].keys()}", "{key: torch.stack([b[key] for b in sorted(batch, key=id)]) for key in batch[0].keys()}", "C17.d"),
+    V("C17", "disassembly-reversed", DSF, "{key: value[i] for key, value in td.items()} for i in range(self.data_len)", "{key: value[-i - 1] for key, value in td.items()} for i in range(self.data_len)", "C17.d"),
+    V("C17", "evalbase-actions-not-appended-pairwise", "rl4co/tasks/eval.py", "                rewards_list.append(rewards)\n                actions_list.append(actions)", "                rewards_list.append(rewards)\n                actions_list.insert(0, actions)", "C17.b"),
+    V("C17", "eq-extra-rename-index", DSF, "    def __getitem__(self, idx):\n        data = self.data[idx]\n        data[self.key_name] = self.extra[idx]\n        return data", "    def __getitem__(self, index):\n        item = self.data[index]\n        item[self.key_name] = self.extra[index]\n        return item", None),
+    V("C17", "eq-collate-rename", DSF, "[b[key] for b in batch]", "[elem[key] for elem in batch]", None),
+]
